@@ -6,9 +6,67 @@ CHECKS = {}
 def chk(pid, technique, text, note, ref):
     CHECKS[pid] = dict(technique=technique, text=text, note=note, ref=ref)
 
+EXH = "bounded exhaustive exploration of the real code"
+chk("C01", "exhaustive enumeration of well-formed messages (every group of the table, nestings, value atoms, numbering modes) through real encode/decode against an independent structural walk",
+    "Every message of a bounded generator over the library's own repeating-group table (all 29 groups, optional-member subsets, nesting to depth 4, sibling groups, value atoms that look like framing, all numbering modes) is round-tripped through the real Codec; an independent walk compares type, ordered fields, group structure, consumed length, raw bytes, CompIDs, sequence number and counter movement.",
+    "Values limited to the atom pool and strings of length <=2 (3 thorough) over a framing alphabet; group width bounded; judged on the utf-8 wire the connection really uses.", "4/C01")
+chk("C02", "exhaustive enumeration of encoder inputs + explicit-state BFS over session histories with an independent framer attached to the transport",
+    "Every frame of the C01 generator plus non-ASCII values is parsed by an independent byte-level FIX framer (field order, 3-digit CheckSum, BodyLength, CheckSum) at Codec.encode and at the transport of a real endpoint; additionally every byte string written during BFS over single-endpoint and two-endpoint session histories (logon, heartbeats, resend replays, gap fills, logout, link loss) is parsed.",
+    "The reference framer is written from the FIX 4.4 framing rules and shares no code with the library; histories bounded in depth.", "4/C02")
 chk("C03", "exhaustive enumeration of stream partitions (0-3 cuts, all offsets) through the real read loop under a virtual event loop",
     "Every 1-cut and 2-cut split (plus boundary 3-cuts, 1-byte reads, marker-free garbage) of a corpus of frame streams is executed on the real socket_read_task; deliveries, counters and journal must equal the constructed frame list.",
     "Corpus frames come from the independent reference encoder; each read() returns exactly one fed chunk; bounded stream length.", "4/C03")
+chk("C04", "explicit-state BFS over inbound histories on the real endpoint (history replay + canonical state hashing) with a per-transition receive monitor",
+    "All inbound histories up to the depth bound from a misbehaving peer with correct CompIDs (application PossDup N/Y, Heartbeat, TestRequest, ResendRequest, GapFill, Reset, absolute numbers below/at/above expectation), both roles, after a clean Logon and after a Logon that revealed a gap; every transition is judged: delivery only at the expected number, counter movement, exactly one ResendRequest per gap.",
+    "One frame per read, processed to quiescence; menu numbers bounded (1..7,12); what a too-low frame does beyond not being delivered is left to C11.", "4/C04")
+chk("C05", "explicit-state BFS over send/receive histories of one real endpoint with a send monitor",
+    "All histories up to the depth bound of connect, send attempts of every message class in every reachable state, inbound frames that cause sends, EOF; both roles, several start counters; after every event: new messages numbered consecutively from the stored counter, journal row == bytes, stored and live next-out == last+1, refused sends leave nothing.",
+    "In-memory journal (durability is C08/C09).", "4/C05")
+chk("C06", "exhaustive product enumeration: journal shapes built by real sends x all (BeginSeqNo, EndSeqNo) pairs x receiver state x second request, judged against the recorded ground-truth send history",
+    "Every journal shape over slot kinds (application, declined by the replay filter, session message, journal hole, failed send, group message, TestRequest) times every request pair in {-1..last+2}^2, in ACTIVE and while awaiting a resend, plus ordered pairs of requests; the reply must be a contiguous chain of exact retransmissions and gap fills over exactly the range and leave counters, rows outside the range and state untouched.",
+    "Ground truth = frames seen leaving the endpoint; journals of 3-4 slots.", "4/C06")
+chk("C07", "explicit-state BFS with state hashing over two real endpoints and a fake link (sends, single-frame deliveries, link breaks of three kinds, reconnects)",
+    "All interleavings up to bounds on sends, breaks and depth of application sends on either side, delivery of the next in-flight frame, link break (everything in flight lost; EOF / reset / other OSError), reconnect+Logon between a real AsyncFIXClient and a real AsyncFIXDummyServer with persistent journals; per-transition no duplicate/out-of-order delivery; at every quiescent state after a completed Logon: both ACTIVE, every accepted send delivered once in order, counters agree.",
+    "No heartbeat traffic; reconnect only after both ends saw the break; the quantifier's long random walks are outside this technique.", "4/C07")
+chk("C08", "exhaustive enumeration of journal operation sequences x every SQL-step crash point (file snapshots, validated by real process kills) against a reference model",
+    "Every operation sequence up to the length bound on a file-backed journal; at every SQL statement/commit boundary the database file and rollback journal are captured exactly as a dying process leaves them (and, for short sequences, a forked child is really killed with os._exit there), reopened with a fresh Journaler and compared with the model state after j-1 or j completed operations; plus normal close.",
+    "SQLite's atomic commit is trusted; process crash, not power loss.", "4/C08")
+chk("C09", "explicit-state BFS over session histories with file-backed journals, restart and kill events",
+    "Part A: all single-endpoint histories up to depth (gaps, multi-number gap fills, resets, resend requests, sends) - after every event the counters a brand-new connection/Journaler on the same file would load equal the live ones. Part B: two real endpoints with graceful restart at any point and kill in the middle of a send (frame delivered or lost) followed by a new incarnation, reconnect and Logon: C07's delivery conditions, no MsgSeqNum reused for a different message, no ResendRequest when nothing was lost.",
+    "Kill points inside inbound journal operations are covered at journal level by C08.", "4/C09")
+chk("C10", "exhaustive enumeration of token strings and of every single-byte edit of a frame corpus through the real decoder and a live read loop",
+    "All strings of <=4 (5) grammar tokens, every single-byte substitution/deletion/insertion at every position of corpus frames and a table of crafted malformed frames go through Codec.decode(silent) (never raises, 0<=consumed<=len, drop loop terminates, message only if CheckSum and BodyLength are consistent) and, followed by valid traffic, through the real socket_read_task (later frames delivered, buffer bounded).",
+    "Independent consistency check from mc/refs; two BodyLength signatures are recorded known findings (pinned by an existing test).", "4/C10")
+chk("C11", "exhaustive product enumeration of role x reached connection state x frame class x integrity defect x send class with depth-2 continuation",
+    "12 (role, state) roots reached by real histories times every inbound frame class times every integrity defect, every send class, EOF and time; then every ordered pair of stimuli. Clause-by-clause oracle: nothing delivered or acted upon before the Logon exchange, refused sends consume nothing, integrity defects never delivered/never advance the counter/leave disconnected with a Logout reason, silence and exactly one disconnect report afterwards.",
+    "Logon-in-hooks intermediate state not stimulated.", "4/C11")
+chk("C12", "exhaustive enumeration of peer timing scripts in virtual time against the real timer and reader tasks",
+    "HeartBtInt in {1..6,30} x tick phase on a quarter-second grid x peer scripts (silent, answering with delay, wrong/missing TestReqID, periodic traffic around the interval, bursts, inbound TestRequests) x both orders of coinciding arrival/tick, plus ALL arrival schedules on a half-second grid over 4 intervals for HeartBtInt 1 and 2; dead peers detected within the stated bounds, responsive and fast peers never disconnected, single outstanding TestRequest, TestRequest echo, wrong id => Logout.",
+    "'about' = 2 s slack on the TestRequest threshold, 3 s on the disconnect threshold.", "4/C12")
+chk("C13", "explicit-state BFS over journal operation sequences with the reference model state as key, full observation after every transition",
+    "All operation sequences to depth 4 (5-6) over three sessions (incl. mirrored CompIDs), both directions, sparse/descending/huge numbers, two payloads, set_seq_num grids; after every transition every range query on a bound grid (inverted, string-typed), single lookups, get_all_msgs filters and both loading paths are compared with a dict-based model.",
+    "In-memory journal; fresh session handles (tests pin the stale-handle semantics).", "4/C13")
+chk("C14", "stateless deviation-bounded schedule exploration (CHESS style) of 2-3 tasks on the real event loop objects",
+    "All schedules with <=3 (4) deviations - start of a task, pause/resume of transport writing (drain parks, FIFO wake-up), release of a parked hook, suspension inside should_replay / on_state_change / on_message / on_logon, at any point between two loop callbacks - over 8 harnesses (send||send, send||resend service, send||TestRequest in/out, send||Logon, send||gap, three senders); each execution runs to completion and is judged on wire order, number reuse, journal rows, exceptions and final stored counter.",
+    "asyncio's ready queue and FIFO drain wake-up are CPython's, reused not modelled.", "4/C14")
+chk("C15", "exhaustive enumeration of valid instances and single-fault mutants for every message type of both dictionaries, plus component-order permutations",
+    "For each of the 93+40 message types an independent XML walker builds minimal/maximal/optional-member/enumerator/typed-value instances and every single fault at every position and nesting depth; validate() must accept the former and reject the latter with FIXMessageError only; verdicts must be identical under permuted <components> declaration orders (all permutations for small dictionaries).",
+    "Canonical member values per datatype; lexical corner cases belong to C19.", "4/C15")
+chk("C16", "exhaustive enumeration of the full finite domain against an independently transcribed three-valued reference table",
+    "15 statuses x message kinds (incl. unsupported) x 17 ExecTypes + omitted marker x 15 reported statuses x error modes x enum/plain spellings, plus can_cancel/can_replace/is_finished on every status, against reference cells T (must transit) / S (must stay) / X (unconstrained) derived from the property clauses and the FIX 4.4 matrices.",
+    "Cancel-reject kind read as in DESIGN.md (lifecycle clauses apply to execution reports).", "4/C16")
+chk("C17", "explicit-state BFS over interleavings of the real order object and an independent exchange model with two FIFO channels",
+    "All interleavings (depth 12-26, <=2-4 requests) of client new/cancel/replace actions and exchange actions (pending-new, ack, reject, fills racing with requests, pending acks, cancelled, replaced, cancel-reject, unsolicited cancel, expire, suspend/resume) for 6 ClOrdID roots x 2 quantity configurations; at every state request builders are probed, at quiescent states the order must equal the exchange's view.",
+    "The exchange model follows the FIX 4.4 order state change matrices (written down in DESIGN.md); replace accepted while suspended is left out (unconstrained).", "4/C17")
+chk("C18", "explicit-state BFS over container operation sequences with the reference model as key, every observer applied in every state",
+    "All sequences to depth 4 (5) of set/replace/delete/add_group/set_group over tag spellings, value types and nested containers; every observer (get, contains, is_group, group accessors, query, items, pickle, equality with containers and dicts with/without framing tags) is compared with an insertion-ordered dict model in every state.",
+    "Only the laws the property states are demanded.", "4/C18")
+chk("C19", "exhaustive enumeration of short strings, single-edit neighbours of layout exemplars and enumerator near-misses against three-valued lexical-space predicates",
+    "For every datatype of both dictionaries all strings up to length 4 (5) over a type-specific alphabet, every single edit of fixed-layout exemplars, calendar boundary products, every enumerator and its near-misses, and a probe sweep over all fields go through the real validate_value; members must be accepted, non-members rejected with FIXMessageError, unspecified cells unconstrained.",
+    "Reference predicates written with explicit ASCII classes, no int()/float()/strptime.", "4/C19")
+chk("C20", "explicit-state BFS over helper/order states with the full argument grid in every state + exhaustive differential replay of clean session scripts against a real acceptor",
+    "Every order state reachable by fabricate-and-process chains times the full argument grid of fix_exec_report_msg / fix_cxlrep_reject_msg and all session factories: whatever the helper returns must validate against FIX44.xml (library schema and an independent reader), keep quantity and id laws and be processed by the order object; every clean session script up to length 5 (6) is run against FIXTester(connection) and against a real AsyncFIXDummyServer and compared step by step.",
+    "Helper refusals (its own assertions) are out of scope, as the property says.", "4/C20")
 
 ALL = [f"C{i:02d}" for i in range(1, 21)]
 m = {
@@ -31,6 +89,6 @@ for pid in ALL:
             "level_claimed": {"category": "model_checking", "text": c["text"], "design_ref": c["ref"]},
             "level_note": c["note"]})
     else:
-        m["not_applicable"].append({"property_id": pid, "reason": "check under construction in this session (design in DESIGN.md section 4); not claimed until it exists"})
+        m["not_applicable"].append({"property_id": pid, "reason": "no check built"})
 json.dump(m, open(os.path.join(HERE, "MANIFEST.json"), "w"), indent=1)
 print("checks:", len(m["checks"]), "not_applicable:", len(m["not_applicable"]))
